@@ -159,7 +159,7 @@ claim("C11", "other",
       "link when it passed every skip (timed out, unschedulable, stall-gated, over its cap while an unconstrained link exists), and is the competing score; a link becomes best only if it passed every skip and strictly beats the best so far; the unconstrained predicate is the "
       "documented 7-way conjunction over the whole slice; gate factor 0.02 iff unconstrained-exists & (weak | loss_degraded) else 1.0; warming weight 0.8; score = get_score*phase*[quality iff flag]*softcap*gate; the flag is effective_quality_enabled(); no clock or RNG is reachable; "
       "the quality cache stamps the caller's time; quality multiplier in [0.35, 1.133], RTT bonus in [1, 1.03], soft cap in [0.1, 1], none NaN for any field values (NaN RTT / bitrate included), cached value inductively in range, in-flight cap >= 1.",
-      "DESIGN.md 5 C11", "Idempotence of a re-run is decided as: function of its arguments + cache re-use at equal time. Oscillation across a changing state and float rounding of the product are not decided.")
+      "DESIGN.md 5 C11", "Idempotence of a re-run is decided as: function of its arguments + cache re-use at equal time + no variable carried between iterations of the scoring loop flows into a link's score (MIR dependence closure). Oscillation across a changing state and float rounding of the product are not decided.")
 
 claim("C14", "other",
       "builder / parser layout tables (shared with C15), value provenance of the telemetry literal, exact path-condition equivalence for the sample site, interval analysis of the sample argument and of the RTT accessor (NaN tracking), who-may-write / who-may-call closure for the probe flag, must-pass-through pairing rule (cancel / reset => flag lowered), per-iteration path formulas and loop-shape rules for the housekeeping pass",
